@@ -227,6 +227,19 @@ func runC06(c *sim.Ctx) *sim.Violation {
 		rd = conn
 		c.Count("probe.read-from-a-closable-connection")
 	}
+	framesTotal := len(stream) - len(trailing)
+	if rd == io.Reader(r) && t.Bool(1, 4) {
+		// through one of the standard library's pass-through readers; a limit, if any,
+		// ends on the last frame's last byte, inside the trailing bytes, or just past them
+		var how string
+		if j := t.Int(len(trailing) + 3); j <= len(trailing) {
+			rd, how = io.LimitReader(r, int64(framesTotal+j)), "io.LimitedReader"
+			trailing = trailing[:j] // what the program lets the decoder see
+		} else {
+			rd, how = link.StdView(c, r, j-len(trailing)-1)
+		}
+		c.Count("probe.read-through-" + how)
+	}
 	seqSig := ""
 	for k, f := range frames {
 		if conn != nil {
@@ -282,9 +295,9 @@ func runC06(c *sim.Ctx) *sim.Violation {
 	if r.Closed {
 		return sim.V("C06/sequence/the-reader-was-closed", "ReadPacket closed the stream it was reading from (frames: %v)", kinds)
 	}
-	if consumed() != len(stream)-len(trailing) {
+	if consumed() != framesTotal {
 		return sim.V("C06/sequence/trailing-bytes-touched", "after %d calls for %d frames %d bytes of the stream were consumed, frames total %d",
-			len(frames), len(frames), consumed(), len(stream)-len(trailing))
+			len(frames), len(frames), consumed(), framesTotal)
 	}
 	if len(trailing) == 0 {
 		got := ReadOne(rd)
